@@ -403,15 +403,19 @@ prop(
     level="exploration",
     technique="stateful (model-based) property testing with rapid state machines and fake drivers that record the options reaching them",
     design_ref="DESIGN.md §5 C18",
-    rule=("rapid state machine: newWriter(subset of {format, render, serialize, format options, store options, nil options}), newReader(subset of {unserialize, "
-          "retrieve, format options}), write, writeWithOptions, parse, parseWithOptions on up to 6+6 live instances; fake serializer/unserializer registered under a "
+    rule=("rapid state machine: newWriter(subset of {format, render, serialize, format options, store options, storage backend, nil options}; a quarter with no "
+          "option at all), newReader(subset of {unserialize, retrieve, format options, storage backend, sniffer, nil options}), in-place reconfiguration, write, "
+          "writeWithOptions, parse, parseWithOptions, store / storeWithOptions and retrieve / retrieveWithOptions through recording backends, on up to 6+6 live "
+          "instances; recording sniffers; fake serializer/unserializer registered under a "
           "private format (and, for the case's duration, as the CycloneDX 1.5 parser so that auto-detected parses reach it). After every step every live instance's "
           "Options fields and format-option lookups are compared with a model = documented defaults overlaid with its own constructor options. Non-trivial = history in "
           "which an optioned constructor precedes an option-less one of the same kind; distinct = digest of the history."),
     assumptions=["each case starts by undoing, through a throw-away instance, whatever a shared defaults object may hold, so a case is a pure function of its own history",
-                 "when a call's option set carries no render / format options, either the library default or the instance's own may reach the driver"],
+                 "when a call's option set carries no render / format options, either the library default or the instance's own may reach the driver",
+                 "Store()/Retrieve() without an option set are documented to use 'the default options': the backend may receive the library defaults or the instance's own, never another instance's"],
     level_text=("invariant over histories: configuration of every live instance equals the model after every constructor / call; the format and the options that reach "
-                "the driver in a call are those of the call's option set, and the next plain call uses the instance's own again."),
+                "the driver in a call are those of the call's option set, and the next plain call uses the instance's own again; every store, retrieve and "
+                "detection goes through the backend / sniffer the instance's own constructor was given and through no other instance's."),
     level_note="trusts rapid's state-machine driver and the fake drivers in harness/props/c18_test.go",
     jobs=[{"test": "TestC18", "checks": 1500, "timeout": 300, "thorough": {"checks": 30000, "shards": 16, "timeout": 1500}}],
     floor={"quick": 200, "thorough": 5000},
